@@ -144,8 +144,8 @@ Definition m_delete (c : call) (v : sfv) : res :=
   end.
 
 (* ---- substitute.go / substitute-if.go / nsubstitute*.go ----------------------------------------- *)
-(* parseSubstituteArgs looks the keywords up one by one (GetArgsKeyValue): an unknown keyword such as
-   :test-not is silently ignored; :count nil leaves count = -1, which replace() turns into len(seq); a
+(* parseSubstituteArgs looks the keywords up one by one (GetArgsKeyValue): :test, then :test-not (stored
+   as the test "not f"); :count nil leaves count = -1, which replace() turns into len(seq); a
    negative :count is clamped to 0.  maybe() returns at once when the count is used up, and decrements
    it for every element it REPLACES; the index loop stops as soon as the count reaches 0. *)
 Fixpoint sub_loop (p : Z -> bool) (new : Z) (w : list Z) (n : Z) : list Z :=
@@ -157,7 +157,7 @@ Fixpoint sub_loop (p : Z -> bool) (new : Z) (w : list Z) (n : Z) : list Z :=
   end.
 Definition m_sub_match (c : call) : Z -> bool :=
   if is_if (c_fn c) then if_match (c_pred c) (c_key c)
-  else item_match (match c_test c with TTestNot _ => TDefault | t => t end) (c_item c) (c_key c).
+  else item_match (c_test c) (c_item c) (c_key c).
 Definition m_substitute (c : call) : res :=
   match c_seq c with
   | SNil => RSeq []
@@ -434,18 +434,17 @@ Definition m_intersection (c : call) : res :=
            end
     end
   else RErr EType.
-(* set-difference and subsetp read :key and :test with GetArgsKeyValue: :test-not is ignored *)
-Definition ignore_test_not (t : testarg) : testarg := match t with TTestNot _ => TDefault | x => x end.
+(* set-difference and subsetp read :key, :test and :test-not (stored as the test "not f") with GetArgsKeyValue *)
 Definition m_set_difference (c : call) : res :=
   if is_list_arg (c_seq c) && is_list_arg (c_seq2 c) then
-    let t := ignore_test_not (c_test c) in
+    let t := c_test c in
     let keys2 := map (key_app (c_key c)) (elems (c_seq2 c)) in
     RSeq (filter (fun x => negb (existsb (fun k2 => test2 t (key_app (c_key c) x) k2) keys2)) (elems (c_seq c)))
   else RErr EType.
 (* subsetp: list, ok = arg.(slip.List); if !ok && arg != nil { TypePanic } — nil is the empty list *)
 Definition m_subsetp (c : call) : res :=
   if is_list_arg (c_seq c) && is_list_arg (c_seq2 c) then
-    let t := ignore_test_not (c_test c) in
+    let t := c_test c in
     let keys2 := map (key_app (c_key c)) (elems (c_seq2 c)) in
     if forallb (fun x => existsb (fun k2 => test2 t (key_app (c_key c) x) k2) keys2) (elems (c_seq c)) then RTrue else RNil
   else RErr EType.
